@@ -105,7 +105,8 @@ def Shape.tagsDisjointL : List Shape → Bool
   | c :: cs => Shape.tagsDisjoint c && Shape.tagsDisjointL cs
 end
 
-/-- well-formed for tags: tests are `startTest t, tags*, outcome t, tags*, stopTest t` (no run boundary inside)
+/-- well-formed for tags: tests are `startTest t, tags*, outcome t, (tags* outcome t)*, tags*, stopTest t` — one or more
+outcomes per test (unittest reports a failing body and a failing `tearDown` as two), no run boundary inside —
 or the start-less pair `outcome t, stopTest t`; phase 0 = between tests, 1 = started, 2 = reported, 3 = reported
 without `startTest` -/
 def wfTag : Nat → Nat → List Call → Bool
@@ -113,7 +114,7 @@ def wfTag : Nat → Nat → List Call → Bool
   | p, cur, c :: h =>
     match c with
     | .startTest t => p == 0 && wfTag 1 t h
-    | .add _ t _ => (p == 1 && t == cur && wfTag 2 t h) || (p == 0 && wfTag 3 t h)
+    | .add _ t _ => ((p == 1 || p == 2) && t == cur && wfTag 2 t h) || (p == 0 && wfTag 3 t h)
     | .stopTest t => (p == 2 || p == 3) && t == cur && wfTag 0 0 h
     | .startTestRun | .stopTestRun => p == 0 && wfTag p cur h
     | .tags _ _ => p != 3 && wfTag p cur h
